@@ -422,6 +422,16 @@ NOT_YET = {}
 # DIFF kinds that are direct failures of the stated property on the implementation
 # (the oracle is the property itself), per family.  Every other kind is a broken
 # correspondence between model and code.
+# Regular expressions on the whole DIFF line that also mark a direct property failure.
+ORACLE_PATTERNS = {
+    # an out-of-range integer accepted, or a value not recovered through a real forest
+    "terminal": [r"expected=overflow got=(?!overflow)", r"kind=(const|cedge|fv|fh)\.", r"kind=crash"],
+    # recorded counts / liveness of a handle differ from the number of references the trace created
+    "nodelife": [r"kind=nl\.handle", r"kind=nl\.mk\.new\.handle-not-free", r"kind=nl\.last", r"kind=nl\.final",
+                 r"kind=(crash|truncated)", r"kind=nl\.etab"],
+    "lifecycle": [r"kind=(edge-forest|table-unchanged|crash|truncated|out|forests)"],
+}
+
 ORACLE_KINDS = {
     # compute table: a hit on a dead entry, a wrong cached answer, a cache count that disagrees with the
     # real table's contents are direct failures of C07's statement
